@@ -65,6 +65,17 @@ P3 ==
     /\ dev = Cfg(Named(a, DevNames), NoFn, [n \in UsedS(a) |-> sa], av, sv)
     /\ tgt = Cfg(Named(b, TgtNames), NoFn, [n \in UsedS(b) |-> sb], AddrVal, SvcVal)
 
+(* P8: two vsys.  vsys2 holds objects of the same names with other values (a1, s80); the target either *)
+(* addresses both vsys or only vsys1 (then vsys2 must stay as it is)                                   *)
+P8 ==
+  \E a1, b1 \in InjSeqs(Bodies, 2), a2, b2 \in InjSeqs(Bodies, 1), both \in BOOLEAN, same \in BOOLEAN :
+    LET av2 == IF same THEN AddrVal ELSE AddrVal2
+        sv2 == IF same THEN SvcVal ELSE SvcVal2
+    IN /\ (~both => b2 = <<>>)
+       /\ dev = Cfg(Named(a1, DevNames), NoFn, NoFn, AddrVal, SvcVal) @@ [v2 |-> Cfg(Named(a2, DevNames), NoFn, NoFn, av2, sv2)]
+       /\ tgt = IF both THEN Cfg(Named(b1, TgtNames), NoFn, NoFn, AddrVal, SvcVal) @@ [v2 |-> Cfg(Named(b2, TgtNames), NoFn, NoFn, av2, sv2)]
+                ELSE Cfg(Named(b1, TgtNames), NoFn, NoFn, AddrVal, SvcVal)
+
 (* P7: the device holds a second vsys that Netspoc does not target (C07) *)
 P7 ==
   \E a, b \in InjSeqs(Bodies, 2) :
@@ -105,7 +116,7 @@ M2 ==
                          c6 |-> Cfg(<<>>, NoFn, NoFn, AddrValM, SvcVal), craw |-> Cfg(pre \o app, NoFn, NoFn, AddrValM, SvcVal),
                          merged |-> Cfg(pre \o v4 \o app, NoFn, NoFn, AddrValM, SvcVal)]]
 
-Init == CASE Fam = "P4" -> P4 [] Fam = "M2" -> M2 [] Fam = "M1" -> M1 [] Fam = "P7" -> P7 [] Fam = "P1" -> P1 [] Fam = "P2" -> P2 [] Fam = "P3" -> P3
+Init == CASE Fam = "P8" -> P8 [] Fam = "P4" -> P4 [] Fam = "M2" -> M2 [] Fam = "M1" -> M1 [] Fam = "P7" -> P7 [] Fam = "P1" -> P1 [] Fam = "P2" -> P2 [] Fam = "P3" -> P3
 Next == UNCHANGED <<dev, tgt>>
 HasTie == \E g, h \in DOMAIN dev.groups : g # h /\ dev.groups[g] = dev.groups[h]
 Out == PrintT(<<"VOUT", ToJson([fam |-> Fam, dev |-> dev, tgt |-> tgt, tie |-> HasTie])>>)
